@@ -174,8 +174,14 @@ func historyInfos() []gInfo {
 
 // history: every operation on the forms of constructed and decoded values, then Hash.
 func (c *ctx) history() {
-	r := c.r
 	for _, g := range historyInfos() {
+		c.historyOn(g)
+	}
+}
+
+func (c *ctx) historyOn(g gInfo) {
+	r := c.r
+	{
 		for _, how := range []string{"ctor", "xml"} {
 			if how == "xml" && !xmlOK(g) {
 				continue
